@@ -208,11 +208,25 @@ class History:
                 conn.send(msg)
                 self.sent.append((self.step, exp))
             elif a == "t":
-                wire = b""
-                for _ in range(3):
-                    msg, exp = self.event_for([self.pick_key()])
-                    wire += conn.wire(msg)
-                    self.sent.append((self.step, exp))
+                if self.rng.random() < 0.5:
+                    wire = b""
+                    for _ in range(3):
+                        msg, exp = self.event_for([self.pick_key()])
+                        wire += conn.wire(msg)
+                        self.sent.append((self.step, exp))
+                else:
+                    # the accessory packs its outgoing STREAM into frames: frame boundaries fall anywhere - inside a body with the
+                    # next event's head right behind it in the following frame, inside a status line, ...
+                    plain, ends = b"", []
+                    for _ in range(self.rng.choice([2, 3])):
+                        msg, exp = self.event_for([self.pick_key()])
+                        plain += msg
+                        ends.append(len(plain))
+                        self.sent.append((self.step, exp))
+                    inside_first_body = max(1, ends[0] - self.rng.randrange(1, 12))
+                    sizes = self.rng.choice([[inside_first_body, 1024], [inside_first_body, 5, 1024], [self.rng.randrange(1, len(plain))], [16], [ends[0] + 3, 1024], [100]])
+                    wire = conn.wire(plain, sizes)
+                    self.ctx.count("events_packed_across_frames")
                 conn.transport.write(wire)
             elif a == "p":
                 # events split across reads; half the time a read carries COMPLETE frame(s) followed by the beginning of the
